@@ -72,6 +72,9 @@ var whitelist = []string{
 	"github.com/henrylee2cn/goutil/pool.(*GoPool).start",
 	"os/signal.",
 	"github.com/henrylee2cn/erpc/v6/plugin/overloader.(*qpsLimiter).startTicker",
+	// the per-peer loops of the heartbeat plug-ins (sleep, then look at the sessions; a ping itself runs in a pool goroutine)
+	"github.com/henrylee2cn/erpc/v6/plugin/heartbeat.(*heartPing).PostNewPeer.func",
+	"github.com/henrylee2cn/erpc/v6/plugin/heartbeat.(*heartPong).PostNewPeer.func",
 	"verifharness/quiesce.",
 	"runtime.gc", "runtime.bgsweep", "runtime.bgscavenge", "runtime.forcegchelper", "runtime.runfinq",
 	"github.com/henrylee2cn/erpc/v6.(*logger)", "github.com/henrylee2cn/erpc/v6.glob",
